@@ -791,7 +791,7 @@ class C09(Property):
             cases += self._exhaustive()
         # the FIXED families (independent of the seed, part of every run): spread evenly over the generated cases, because
         # the Coq evaluation shards the case list contiguously and all corpus() cases already sit in the first shard
-        fixed = self._fixed_families()
+        fixed = self._fixed_families() if tier in ("quick", "thorough") else []   # not in the search / -race re-runs
         for i, c in enumerate(fixed):
             cases.insert((i + 1) * len(cases) // (len(fixed) + 1), c)
         return cases
@@ -1119,7 +1119,7 @@ class C09(Property):
         if not ok:
             raise ExecError("c09 -race executor does not build: %s" % res[-1500:])
         rng = random.Random(ctx.seed * 31 + 9)
-        cases = self.corpus() + self.gen(rng, 150, "quick")
+        cases = self.corpus() + self.gen(rng, 150, "race")
         for i, c in enumerate(cases):
             c["id"] = i
             nflag = 4 if c.get("kind") == "server" else 3
